@@ -70,7 +70,7 @@ func solveOne(ob *Obligation, dir string, timeoutS int, wantModel bool) {
 	status, out, secs := runSolver(context.Background(), solvers[0], file, quick)
 	total := secs
 	solver := solvers[0].name
-	if status != "unsat" && status != "sat" {
+	if status != "unsat" && status != "sat" && ob.Kind != "cover" {
 		// race
 		ctx, cancel := context.WithCancel(context.Background())
 		type r struct {
